@@ -112,3 +112,21 @@ func must(err error) {
 
 // Must panics on a harness-internal error.
 func Must(err error) { must(err) }
+
+var shortCoordKey *Key
+
+// ShortCoordinateKey returns a secp256k1 key one of whose coordinates starts with a zero byte (its minimal
+// big-endian form is shorter than 32 bytes; the JWK must still carry 32 bytes). About 1 key in 128 is like that.
+func ShortCoordinateKey() *Key {
+	if shortCoordKey != nil {
+		return shortCoordKey
+	}
+	for i := 0; ; i++ {
+		k := NewKey(1000+i, Secp256k1)
+		pub := k.Pub.(*ecdsa.PublicKey)
+		if len(pub.X.Bytes()) < 32 || len(pub.Y.Bytes()) < 32 {
+			shortCoordKey = k
+			return k
+		}
+	}
+}
